@@ -93,6 +93,7 @@ package procbuilder
 //@   pure
 
 //@ func (proc *Conproc) Decode_opcode(intr string) (int, error)
+//@   reads proc.Op
 //@   requires proc != nil && len(intr) >= 15
 //@   ensures result1 == nil && result == val(sub(intr, 0, (len(proc.Op) <= 32768 ? bitsfor(len(proc.Op)) : 1)))
 //@   pure
